@@ -934,6 +934,13 @@ def check(ctx):
                     lookups.append((lo, bi)); break
     ctx.check(bool(lookups), R + '.guards/unknown/lookup', 'T-ERRFLOW', fn, 'no search of self.decision_variables by the given id', body.site())
     lookup_test = None
+    if lookups:
+        # the search looks at EVERY element: no path from taking an item back to the header avoids the id comparison
+        # (`.filter(p).find(by id)` / `if skip(dv) { continue }` in front of the comparison make a present id "not found"; seed C12-20)
+        lo0 = lookups[0][0]
+        via = {b for l, b in lookups if l is lo0}
+        ctx.check(T.must_pass(body, lo0[2], {lo0[1]}, via), R + '.guards/unknown/every-element-compared', 'T-LOOPMUST', fn,
+                  'an element of self.decision_variables can be passed over without its id being compared with the argument', body.site(lo0[2]))
     for lo, bi in lookups[:1]:
         t = Test(lo[1], [lo[2]], [lo[3]], 'lookup by id exhausted')
         # the header block holds the `next` call; the switch on its result follows it
